@@ -590,3 +590,6 @@ package keeper
 // registered hooks run once per closed/overdrawn account and once per payment of it (the hooks then close the market
 // and deployment records: x/market/hooks, proved under C04/C05 there)
 //@ property C05 := (*keeper).doAccountSettle#ensures[hooks]*, (*keeper).doAccountSettle#ensures[phooks]*, (*keeper).AccountSettle#ensures[hooks]*, (*keeper).AccountClose#ensures[told]*, (*keeper).PaymentClose#ensures[told]*
+// C02: a deposit adds exactly the deposited amount to the balance and does not rewind settlement (the metering
+// clauses speak about what "was deposited into" an account)
+//@ property C02 := (*keeper).AccountDeposit#*
